@@ -16,8 +16,9 @@ VARIABLES l,        \* next line to consume
           offered,  \* acceptable entries offered so far in this run
           subs,     \* active subscriber slots
           policy,   \* download policy
-          fpmap     \* observed fingerprint value -> range contents
-vars == <<l, store, offered, subs, policy, fpmap>>
+          fpmap,    \* observed fingerprint value -> range contents
+          conform   \* the store has followed Entries!Put on every step of this run so far
+vars == <<l, store, offered, subs, policy, fpmap, conform>>
 
 EmptyHex == "af1349b9f5f9a1a6a0404dea36dcc9499bcb25c9adc112b7cc9a93cae41f3262"
 Impossible == {[a |-> -1, k |-> <<>>, ts |-> 0, h |-> 0, len |-> 0]}
@@ -100,13 +101,19 @@ MsgStoreOk(r, pre, post) ==
 
 MsgC03(r, pre, post) ==
   LET R == MsgR(r, pre)
-      bad == {v \in UNION {ToSet(p.vals) : p \in ToSet(r.parts)} : ~Acceptable(v, r.now, TRUE)}
+      all == UNION {ToSet(p.vals) : p \in ToSet(r.parts)}
+      bad == {v \in all : ~Acceptable(v, r.now, TRUE)}
+      goodEntries == {v.e : v \in all \ bad}
   IN /\ \A i \in 1..Len(r.sok) : r.sok[i]
      /\ r.res = "ok"
-     \* nothing unacceptable is stored or announced, the rest is processed as if the bad ones were absent
-     /\ post = R.S
-     /\ \A s \in 1..Len(r.evs) : \A i \in 1..Len(r.evs[s]) :
-           \E v \in UNION {ToSet(p.vals) : p \in ToSet(r.parts)} : v.e = r.evs[s][i].e /\ v \notin bad
+     \* nothing unacceptable is stored or announced
+     /\ (post \ pre) \subseteq goodEntries
+     /\ \A s \in 1..Len(r.evs) : \A i \in 1..Len(r.evs[s]) : r.evs[s][i].e \in goodEntries
+     \* a message carrying only unacceptable entries changes nothing
+     /\ (all = bad) => post = pre
+     \* the rest is processed as if the bad ones were absent: the specification's Process skips them. Judged while the
+     \* store has followed the admission rule so far in this run (a defect of that rule is C02's to report)
+     /\ (conform /\ bad # {}) => post = R.S
 
 MsgC12(r, pre, post) ==
   LET R == MsgR(r, pre) IN
@@ -148,18 +155,24 @@ NextOffered(r) ==
     [] r.ev = "RemoveDoc" -> {}
     [] OTHER -> offered
 
+StepConforms(r, pre, post) ==
+  CASE r.ev = "Put" -> post = (IF PutValid(r) THEN Put(pre, r.e) ELSE pre)
+    [] r.ev = "Msg" -> post = MsgR(r, pre).S
+    [] OTHER -> TRUE
+
 Init == l = 1 /\ store = {} /\ offered = {} /\ subs = {} /\ policy = DefaultPolicy
-        /\ fpmap = {<<EmptyHex, {}>>}
+        /\ fpmap = {<<EmptyHex, {}>>} /\ conform = TRUE
 
 Step ==
   /\ l <= Len(Rec)
   /\ LET r == Rec[l] IN
      IF r.ev = "Reset"
      THEN /\ store' = {} /\ offered' = {} /\ subs' = {} /\ policy' = DefaultPolicy
-          /\ fpmap' = {<<EmptyHex, {}>>}
+          /\ fpmap' = {<<EmptyHex, {}>>} /\ conform' = TRUE
      ELSE /\ r.ev # "PANIC"
           /\ Check(r, store, ToSet(r.st))
           /\ store' = ToSet(r.st)
+          /\ conform' = (conform /\ StepConforms(r, store, ToSet(r.st)))
           /\ offered' = NextOffered(r)
           /\ subs' = (CASE r.ev = "Sub" -> subs \cup {r.s}
                         [] r.ev \in {"Unsub", "DropRx"} -> subs \ {r.s}
